@@ -741,8 +741,10 @@ func (c *Conn) writev(in [][]byte) (int, error) {
 	}
 	if len(c.writeList) > 0 {
 		for _, v := range in {
-			c.newToWriteBuf(v)
-			// c.appendWrite(t)
+			if len(v) > 0 {
+				c.newToWriteBuf(v)
+				// c.appendWrite(t)
+			}
 		}
 		return size, nil
 	}
@@ -755,8 +757,10 @@ func (c *Conn) writev(in [][]byte) (int, error) {
 			for i := 0; i < len(in); i++ {
 				b := in[i]
 				if n == 0 {
-					c.newToWriteBuf(b)
-					// c.appendWrite(t)
+					if len(b) > 0 {
+						c.newToWriteBuf(b)
+						// c.appendWrite(t)
+					}
 				} else {
 					if n < len(b) {
 						if onWrittenSize != nil {
